@@ -740,14 +740,14 @@ func corrJob(j job) *jobResult {
 	bt := Build(c)
 	if bt.Panic != "" || bt.Err != "" {
 		jr.count("corr_builder_failed", 1)
-		if c.B.Modelled {
+		if c.B.IsModelled(c) {
 			jr.ops = append(jr.ops, [2]string{"c07 gen " + c.String(), "unconnected-or-error"})
 			jr.count("t4_error_lines", 1)
 		}
 		return jr
 	}
 	straight := bt.straightLine()
-	if c.B.Modelled && c.Opt == 0 {
+	if c.B.IsModelled(c) && c.Opt == 0 {
 		if straight && len(bt.Raw) > 200000 {
 			// the line protocol caps a result line at 8 MB
 			jr.count("t4_skipped_too_large", 1)
@@ -785,11 +785,11 @@ func corrJob(j job) *jobResult {
 		if c.NW > 0 {
 			inb += bitsOf(w, c.NW)
 		}
-		if c.B.Modelled && c.Opt == 0 && straight {
+		if c.B.IsModelled(c) && c.Opt == 0 && straight {
 			jr.ops = append(jr.ops, [2]string{fmt.Sprintf("c07 run %s %s", c.String(), inb), hxlib.BitsString(ob)})
 			jr.count("t3_run_lines", 1)
 		}
-		if len(bt.Circ.Gates) <= 4000 && (k == 0 || !c.B.Modelled) {
+		if len(bt.Circ.Gates) <= 4000 && (k == 0 || !c.B.IsModelled(c)) {
 			jr.ops = append(jr.ops, [2]string{"c07 evalc " + hxlib.CircLine(bt.Circ) + " " + inb, hxlib.BitsString(ob)})
 			jr.count("t3_evalc_lines", 1)
 		}
